@@ -16,7 +16,7 @@ RULE = (
     "continuation fragments carrying (count,start) in {(1,0),(1,1),(1,2),(1,3),(2,0),(2,2),(3,0),(4,0)} of a 2x2-slice picture, "
     "padding/auxiliary units with 0-20 payload bytes, end-of-sequence) in 1-3 sequences, each with a context: profile LD/HQ, "
     "frames/fields, major_version 1-4, level in {0,1..7,64,65,66}; per unit: next_parse_offset correct/zero/wrong/1-12, "
-    "previous_parse_offset correct/wrong, explicit picture numbers (consecutive, skip, repeat, wrap at 2^32, odd first field), "
+    "previous_parse_offset correct/zero/wrong, explicit picture numbers (consecutive, skip, repeat, wrap at 2^32, odd first field), "
     "pictures of the other profile. Generation = valid skeleton honouring the level pattern + 0-2 injected defects (70 %), or "
     "random orderings (30 %). Units are individually valid byte blobs cut from encoder output for 8x4 formats; histories are "
     "assembled by concatenation and patching only the offset and picture-number bytes. Oracle: from-scratch structure model "
@@ -212,7 +212,7 @@ def assemble(units):
             else:
                 nxt = true_next + u.get("next_delta", 1)
         true_prev = 0 if first_in_seq else prev_len
-        prv = true_prev if u["prev"] == "ok" else true_prev + u.get("prev_delta", 1)
+        prv = true_prev if u["prev"] == "ok" else 0 if u["prev"] == "zero" else true_prev + u.get("prev_delta", 1)
         b[5:9] = nxt.to_bytes(4, "big")
         b[9:13] = prv.to_bytes(4, "big")
         out += b
@@ -364,7 +364,7 @@ def defect(draw, units, ctx):
             if x["kind"] in ("PAD", "AUX"):
                 x["len"] = 0
     elif kind == "prev":
-        u["prev"] = "wrong"
+        u["prev"] = draw(st.sampled_from(["wrong", "wrong", "zero"]))
         u["prev_delta"] = draw(st.sampled_from([1, 2, 13, 1000]))
     elif kind == "picnum":
         cands = [x for x in units if x["kind"] in ("PIC", "F0", "FN")]
@@ -495,7 +495,7 @@ def histories(draw):
                     u["next"] = draw(st.sampled_from(["zero", "wrong", "invalid"]))
                     u["next_value"] = draw(st.integers(1, 12))
                 if draw(st.integers(0, 14)) == 0:
-                    u["prev"] = "wrong"
+                    u["prev"] = draw(st.sampled_from(["wrong", "zero"]))
             defects.append("random")
         units.extend(seq)
     return units, mode, defects
